@@ -181,10 +181,9 @@ def extract_default(
     start_rest_offset = _end_idx + len(default)
 
     default = default.strip(" \t")
-    if code_quoted(default) and default.strip("`") not in frozenset(
-        ("None", "(None)")
-    ):
+    if code_quoted(default):
         # An expression written in code quotes is carried as is; it is not a literal to evaluate
+        # (and `None`, parenthesised or not, in the one spelling the rest of the library gives it)
         return (
             _parse_out_default_and_doc(
                 _start_idx,
@@ -196,7 +195,11 @@ def extract_default(
                 default_end_offset,
                 emit_default_doc,
             )[0],
-            default,
+            (
+                NoneStr
+                if default.strip("`") in frozenset(("None", "(None)"))
+                else default
+            ),
         )
     default = default.strip("`")
 
